@@ -4,8 +4,10 @@
    this crate's optimiser), followed by padding up to any capacity.  This file covers the ASCII encodation
    (5.2.3: ASCII values +1, digit pairs 130..229, Upper Shift 235), the Base256 encodation (5.2.9: latch 231, length
    field in one or two codewords or 0 = "to the end of the symbol", every field and data codeword randomised with
-   the 255-state algorithm at its position) and padding (5.2.3 / Annex B: 129, then 253-state randomised 129s).
-   Nothing of the crate's decoder is used here. *)
+   the 255-state algorithm at its position), the C40 and Text encodations (5.2.5/5.2.6, Table 2: basic set and the
+   three shift sets, Upper Shift = Shift 2 value 30, three values packed in two codewords, latch 230/239, unlatch
+   254 or the end-of-symbol forms), the ANSI X12 encodation (5.2.7, Table 3, latch 238) and padding (5.2.3 / Annex
+   B: 129, then 253-state randomised 129s).  Nothing of the crate's decoder is used here. *)
 From Coq Require Import NArith List Bool.
 Import ListNotations.
 Local Open Scope N_scope.
@@ -39,10 +41,63 @@ Definition rand253 (ch pos : N) : N :=
 Fixpoint rand255_run (l : list N) (first_pos : N) : list N :=
   match l with [] => [] | x :: r => rand255 x first_pos :: rand255_run r (first_pos + 1) end.
 
+(* ---- C40 / Text (Table 2) and X12 (Table 3) character values ---- *)
+Definition between (lo hi ch : N) : bool := (lo <=? ch) && (ch <=? hi).
+Definition c40_basic (text : bool) (ch : N) : option N :=
+  if ch =? 32 then Some 3
+  else if between 48 57 ch then Some (ch - 48 + 4)
+  else if text then (if between 97 122 ch then Some (ch - 97 + 14) else None)
+  else (if between 65 90 ch then Some (ch - 65 + 14) else None).
+Definition c40_shift2 (ch : N) : option N :=
+  if between 33 47 ch then Some (ch - 33)
+  else if between 58 64 ch then Some (ch - 58 + 15)
+  else if between 91 95 ch then Some (ch - 91 + 22) else None.
+Definition c40_shift3 (text : bool) (ch : N) : option N :=
+  if ch =? 96 then Some 0
+  else if between 123 127 ch then Some (ch - 123 + 27)
+  else if text then (if between 65 90 ch then Some (ch - 65 + 1) else None)
+  else (if between 97 122 ch then Some (ch - 97 + 1) else None).
+(* values of a character below 128: basic set, or Shift 1/2/3 followed by the value in that set *)
+Definition c40_vals_low (text : bool) (ch : N) : list N :=
+  match c40_basic text ch with
+  | Some v => [v]
+  | None =>
+    if ch <? 32 then [0; ch]
+    else match c40_shift2 ch with
+         | Some v => [1; v]
+         | None => match c40_shift3 text ch with Some v => [2; v] | None => [] end
+         end
+  end.
+(* characters 128..255: Shift 2, Upper Shift (30), then the values of ch - 128 *)
+Definition c40_vals (text : bool) (ch : N) : list N :=
+  if ch <? 128 then c40_vals_low text ch else [1; 30] ++ c40_vals_low text (ch - 128).
+
+Definition x12_val (ch : N) : option N :=
+  if ch =? 13 then Some 0 else if ch =? 42 then Some 1 else if ch =? 62 then Some 2 else if ch =? 32 then Some 3
+  else if between 48 57 ch then Some (ch - 48 + 4)
+  else if between 65 90 ch then Some (ch - 65 + 14) else None.
+Definition x12_ok (ch : N) : bool := match x12_val ch with Some _ => true | None => false end.
+Definition x12_v (ch : N) : N := match x12_val ch with Some v => v | None => 0 end.
+
+(* three values in two codewords: 1600 c1 + 40 c2 + c3 + 1, most significant first *)
+Definition pack3 (c1 c2 c3 : N) : list N := let v := 1600 * c1 + 40 * c2 + c3 + 1 in [v / 256; v mod 256].
+Fixpoint pack_vals (vals : list N) : list N :=
+  match vals with c1 :: c2 :: c3 :: r => pack3 c1 c2 c3 ++ pack_vals r | _ => [] end.
+
+(* how a C40 / Text / X12 run ends: explicit Unlatch (254), or nothing because the symbol ends here (possibly
+   after one more ASCII-encoded codeword, see script_ok) *)
+Inductive term := TUnlatch | TEnd.
+Definition term_cw (t : term) : list N := match t with TUnlatch => [254] | TEnd => [] end.
+
 Inductive segment :=
   | SAscii (items : list aitem)
   | SB256 (bytes : list N)          (* explicit length field *)
-  | SB256End (bytes : list N).      (* length field 0: runs to the end of the symbol; only as the last segment *)
+  | SB256End (bytes : list N)       (* length field 0: runs to the end of the symbol; only as the last segment *)
+  | SC40 (text : bool) (chars : list N) (fill : bool) (t : term)   (* fill: one Shift-1 value completes the last triple *)
+  | SX12 (chars : list N) (t : term).
+
+Definition c40_run_vals (text : bool) (chars : list N) (fill : bool) : list N :=
+  flat_map (c40_vals text) chars ++ (if fill then [0] else []).
 
 Definition bytes_ok (l : list N) : bool := forallb (fun b => b <? 256) l.
 Definition len_field (n : N) : list N := if n <? 250 then [n] else [n / 250 + 249; n mod 250].
@@ -51,6 +106,8 @@ Definition segment_ok (s : segment) : bool :=
   | SAscii items => forallb aitem_ok items
   | SB256 bytes => bytes_ok bytes && (1 <=? N.of_nat (length bytes)) && (N.of_nat (length bytes) <=? 1555)
   | SB256End bytes => bytes_ok bytes
+  | SC40 text chars fill _ => bytes_ok chars && (N.of_nat (length (c40_run_vals text chars fill)) mod 3 =? 0)
+  | SX12 chars _ => forallb x12_ok chars && (N.of_nat (length chars) mod 3 =? 0)
   end.
 
 (* codewords of one segment when `before` codewords precede it *)
@@ -59,9 +116,11 @@ Definition segment_cw (before : N) (s : segment) : list N :=
   | SAscii items => flat_map aitem_cw items
   | SB256 bytes => 231 :: rand255_run (len_field (N.of_nat (length bytes)) ++ bytes) (before + 2)
   | SB256End bytes => 231 :: rand255_run (0 :: bytes) (before + 2)
+  | SC40 text chars fill t => (if text then 239 else 230) :: pack_vals (c40_run_vals text chars fill) ++ term_cw t
+  | SX12 chars t => 238 :: pack_vals (map x12_v chars) ++ term_cw t
   end.
 Definition segment_data (s : segment) : list N :=
-  match s with SAscii items => flat_map aitem_data items | SB256 bytes | SB256End bytes => bytes end.
+  match s with SAscii items => flat_map aitem_data items | SB256 bytes | SB256End bytes => bytes | SC40 _ chars _ _ => chars | SX12 chars _ => chars end.
 
 Fixpoint render (before : N) (segs : list segment) : list N :=
   match segs with
@@ -76,12 +135,24 @@ Fixpoint rpad (before : N) (n : nat) : list N :=
 Definition pad (before : N) (n : nat) : list N :=
   match n with O => [] | S k => 129 :: rpad (before + 1) k end.
 
-(* a script is legal if every segment is, and a run-to-the-end Base256 field is last and unpadded *)
+(* a script is legal if every segment is, a run-to-the-end Base256 field is last and unpadded, and a C40/Text/X12
+   run without Unlatch ends the symbol: nothing follows it, or exactly one more ASCII-encoded codeword *)
+Definition single_cw (i : aitem) : bool := match i with AUpper _ => false | _ => true end.
+Definition ends_symbol (r : list segment) (npad : nat) : bool :=
+  Nat.eqb npad 0 &&
+  match r with
+  | [] => true
+  | [SAscii [i]] => aitem_ok i && single_cw i
+  | _ => false
+  end.
+Definition term_of (s : segment) : option term :=
+  match s with SC40 _ _ _ t | SX12 _ t => Some t | _ => None end.
 Fixpoint script_ok (segs : list segment) (npad : nat) : bool :=
   match segs with
   | [] => true
   | SB256End b :: r => segment_ok (SB256End b) && match r with [] => Nat.eqb npad 0 | _ => false end
-  | s :: r => segment_ok s && script_ok r npad
+  | s :: r => segment_ok s && script_ok r npad &&
+              match term_of s with Some TEnd => ends_symbol r npad | _ => true end
   end.
 
 Definition stream (segs : list segment) (npad : nat) : list N :=
